@@ -122,6 +122,40 @@ def corpus_items(item, rec):
                           "corpus call %s (%s): %s %s" % (r["id"], r["test"], kind, detail), {"corpus_id": r["id"]})
 
 
+def borderline_inputs():
+    """inputs whose identifiers collide only after the loader's normalisation: run() either rejects them or returns a
+    result that conforms (in particular: unique identifiers)"""
+    from vtlmc.refbase import DS, ID, ME
+    out = []
+    spell = [("month", "2020M1", "2020-M01"), ("quarter", "2021Q1", "2021-Q1"), ("year", "2020", "2020A"), ("month-iso", "2020M3", "2020-03"),
+             ("day", "2020D1", "2020-01-01"), ("week", "2020W5", "2020-W05")]
+    for lab, a, b in spell:
+        d = DS("DS_1", [("Id_1", "String", ID), ("Id_2", "Time_Period", ID), ("Me_1", "Number", ME)],
+               [{"Id_1": "A", "Id_2": a, "Me_1": 1.0}, {"Id_1": "A", "Id_2": b, "Me_1": 2.0}, {"Id_1": "B", "Id_2": a, "Me_1": 3.0}])
+        for sname, script in (("copy", "DS_r <- DS_1;"), ("calc", "DS_r <- DS_1[calc Me_2 := Me_1 * 2];"), ("sub", 'DS_r <- DS_1[sub Id_1 = "A"];')):
+            out.append(("two-spellings-of-one-period:%s:%s" % (lab, sname), script, [d]))
+    return out
+
+
+def borderline_items(item, rec):
+    V = harness.boot()
+    for name, script, dss in item:
+        structs = {"datasets": [d.structure() for d in dss]}
+        sem = harness.call(V.semantic_analysis, script, structs)
+        out = refbase.run(script, dss, return_only_persistent=False)
+        if sem[0] != "ok":
+            rec.tool_error("borderline program %s fails semantic analysis: %s" % (name, sem[1:4]))
+            continue
+        if out[0] != "ok":
+            rec.case(("borderline", name.split(":")[0], "rejected"), "input-rejected:%s" % out[3], nontrivial=True)
+            continue
+        probs = conformance(sem[1], out[1])
+        rec.case(("borderline", name, tuple(p[0] for p in probs)), "conforms" if not probs else "deviates")
+        for kind, detail in probs:
+            rec.violation("C10:%s:%s" % (name, kind), "program %s (%s) on identifiers that collide after normalisation: %s %s" % (name, script, kind, detail),
+                          {"borderline": name})
+
+
 def program_items(item, rec):
     V = harness.boot()
     for name, script, dss, tags in item:
@@ -204,12 +238,15 @@ class Check:
         harness.pmap(corpus_items, list(harness.chunks(harness.seeded_order(rs, seed), 25)), rec)
         P = programs.programs() + structural_programs()
         harness.pmap(program_items, list(harness.chunks(P, 6)), rec)
+        harness.pmap(borderline_items, list(harness.chunks(borderline_inputs(), 3)), rec)
         return {"exhaustive": tier == "thorough", "corpus_runs": len(rs), "programs": len(P)}
 
     def replay(self, data):
         rec = harness.Recorder()
         if "corpus_id" in data:
             corpus_items([r for r in corpus.load(fn="run", outcome="ok") if r["id"] == data["corpus_id"]], rec)
+        elif "borderline" in data:
+            borderline_items([p for p in borderline_inputs() if p[0] == data["borderline"]], rec)
         else:
             program_items([p for p in programs.programs() + structural_programs() if p[0] == data["program"]], rec)
         return bool(rec.violations)
